@@ -1,6 +1,8 @@
 package world
 
 import (
+	"bytes"
+	"encoding/hex"
 	"fmt"
 	"strconv"
 	"strings"
@@ -9,6 +11,7 @@ import (
 	"google.golang.org/grpc/codes"
 	"google.golang.org/grpc/peer"
 	"google.golang.org/grpc/status"
+	"google.golang.org/protobuf/encoding/protowire"
 	"google.golang.org/protobuf/proto"
 	"google.golang.org/protobuf/types/known/emptypb"
 
@@ -27,9 +30,45 @@ type puppetServer struct {
 func reqVal(m proto.Message) string {
 	switch r := m.(type) {
 	case *zsvc.Request:
+		if u := r.ProtoReflect().GetUnknown(); len(u) > 0 {
+			// C13 profile: requests carry fields the receiver's schema does not know
+			return r.GetValue() + "#u" + hex.EncodeToString(u)
+		}
 		return r.GetValue()
 	}
 	return ""
+}
+
+// unknownFor returns the unknown-field bytes (two fields the schema does not define) that
+// accompany the value v in the C13 profile.
+func unknownFor(v uint64) []byte {
+	b := protowire.AppendTag(nil, 1000, protowire.VarintType)
+	b = protowire.AppendVarint(b, v)
+	b = protowire.AppendTag(b, 1001, protowire.BytesType)
+	return protowire.AppendString(b, fmt.Sprintf("u%d", v))
+}
+
+// mkResp builds the reply of a puppet handler.
+func mkResp(st int64) *zsvc.Response {
+	r := &zsvc.Response{Result: st}
+	if w := curWorld.Load(); w != nil && w.Cfg.Profile == "C13" {
+		r.ProtoReflect().SetUnknown(unknownFor(uint64(st)))
+	}
+	return r
+}
+
+// checkReplyUnknown (C13, runs without injected corruption): a reply that reaches the client
+// still carries the unknown fields its handler put into it.
+func checkReplyUnknown(r *zsvc.Response) {
+	w := curWorld.Load()
+	if w == nil || r == nil || w.Cfg.Profile != "C13" || w.Cfg.CorruptP > 0 || r.GetResult() <= 0 {
+		return
+	}
+	ok := bytes.Equal(r.ProtoReflect().GetUnknown(), unknownFor(uint64(r.GetResult())))
+	w.rule("C13.reply-round-trips", ok)
+	if !ok {
+		w.violate("C13", "reply-not-equal", "unknown-fields", "a reply (stamp %v) reached the client without the unknown fields its handler had set: got %x, want %x - decode(encode(m)) is not equal to m", parseStamp(r.GetResult()), r.ProtoReflect().GetUnknown(), unknownFor(uint64(r.GetResult())))
+	}
 }
 
 // parseTok extracts the call token from a request payload "t<tok>[/n<id>]"; -1 if absent.
@@ -38,6 +77,9 @@ func parseTok(v string) int {
 		return -1
 	}
 	v = v[1:]
+	if i := strings.IndexByte(v, '#'); i >= 0 {
+		v = v[:i]
+	}
 	if i := strings.IndexByte(v, '~'); i >= 0 {
 		v = v[:i]
 	}
@@ -242,6 +284,7 @@ func respStamps(r map[uint32]*zsvc.Response) map[uint32]int64 {
 			continue
 		}
 		out[k] = v.GetResult()
+		checkReplyUnknown(v)
 	}
 	return out
 }
